@@ -6,7 +6,7 @@
    Latin-1 targets, for both settings of the out-of-range flag.                          *)
 From Coq Require Import NArith ZArith List Bool.
 From ST Require Import Base.Outcome Base.Units Utf.Spec Utf.Tokens Utf.Model Utf.ProofsC01 Utf.ApiCoverage.
-From ST Require Gen.Leaf Utf.LoopBridge Utf.LoopBridgeExtract Utf.LoopBridgeWrite Utf.LoopBridgeConvertL1.
+From ST Require Gen.Leaf Utf.LoopBridge Utf.LoopBridgeExtract Utf.LoopBridgeWrite Utf.LoopBridgeConvertL1 Utf.LoopBridgeConvert32.
 Import ListNotations.
 Local Open Scope N_scope.
 
@@ -129,3 +129,18 @@ Theorem latin_1_conversion_pass_matches_source : forall l fuel, all_lt 256 l = t
         Ok (CSuccess, ((fst d - length ws)%nat, rev (map ST.Utf.LoopBridgeWrite.byte_of ws) ++ snd d)).
 Proof. exact ST.Utf.LoopBridgeConvertL1.utf8_convert_from_latin_1_matches_source. Qed.
 Print Assumptions latin_1_conversion_pass_matches_source.
+
+(* ---- tie by translation, a whole conversion pass with its validation modes: utf16_convert_from_utf32(dest, utf32, size,
+   validation), the second pass of ST::utf32_to_utf16 and of the wchar_t aliases, is translated from the CURRENT headers
+   (dest is a write-only cursor handed to the translated encoder write_utf16).  For inputs of any length, every mode and
+   enough fuel it returns the conversion_error_t and stores exactly the units that the model pass of every theorem above
+   returns and pushes, given room: under check_validity it stops at the first unit above 0x10FFFF with out_of_range,
+   otherwise it stores U+FFFD for it and goes on ---- *)
+Theorem utf32_to_utf16_pass_matches_source : forall l m fuel, all_lt 4294967296 l = true -> (length l < fuel)%nat ->
+  exists e ws,
+    ST.Gen.Leaf.src_utf16_convert_from_utf32 fuel (ST.Utf.LoopBridge.arr32 l) (Z.of_nat (length l)) (ST.Utf.LoopBridgeConvert32.mode_code m)
+      = Some (Z.of_N (cerr_code e), ws) /\
+    forall d : dst, (length ws <= fst d)%nat ->
+      utf16_convert_from_utf32 d l m = Ok (e, ((fst d - length ws)%nat, rev (map ST.Utf.LoopBridgeWrite.unit16_of ws) ++ snd d)).
+Proof. exact ST.Utf.LoopBridgeConvert32.utf16_convert_from_utf32_matches_source. Qed.
+Print Assumptions utf32_to_utf16_pass_matches_source.
